@@ -1574,3 +1574,109 @@ func ruleP15(r *Run) {
 		r.Undec("goroutines started with a context", 0, "no `go f(ctx, ..)` for a function that waits on its context found in the push and reverse plugins")
 	}
 }
+
+// ---------------------------------------------------------------------------------------------------
+// F5 pointer-taking writers survive nil and write the infinities with their own item
+
+func init() {
+	register("F5", "an exported writer of the encoder that takes a pointer to a value (WriteBigInt(*big.Int), WriteBigFloat, WriteBigRat, ...) uses the pointer only where it has been compared with nil (a nil pointer in a struct field is written as null, not as `l<nil>;`, and does not crash Marshal), and a writer that formats a big.Float with the double tag does so only where IsInf() has been excluded (the grammar writes the infinities as I+ / I-; `d+Inf;` is not a double)", 3, ruleF5)
+}
+
+func ruleF5(r *Run) {
+	p := r.P
+	pkg := p.Pkg("io")
+	if pkg == nil {
+		r.Undec("package io", 0, "not found")
+		return
+	}
+	info := pkg.TypesInfo
+	n := 0
+	for _, file := range pkg.Syntax {
+		for _, d := range file.Decls {
+			fd, ok := d.(*ast.FuncDecl)
+			if !ok || fd.Body == nil || fd.Recv == nil || !fd.Name.IsExported() || !strings.HasPrefix(fd.Name.Name, "Write") {
+				continue
+			}
+			if nt := recvNamed(info, fd); nt == nil || nt.Obj().Name() != "Encoder" {
+				continue
+			}
+			parents := parentMap(fd.Body)
+			for _, pv := range paramsOf(info, fd.Type) {
+				pt, ok := pv.Type().(*types.Pointer)
+				if !ok {
+					continue
+				}
+				nt, ok := pt.Elem().(*types.Named)
+				if !ok || nt.Obj().Pkg() == nil || p.InRepo(nt.Obj()) {
+					continue
+				}
+				if _, isStruct := nt.Underlying().(*types.Struct); !isStruct {
+					continue
+				}
+				n++
+				// every use of the parameter other than the nil comparison itself is dominated by the exclusion of nil
+				bad := ""
+				ast.Inspect(fd.Body, func(m ast.Node) bool {
+					id, ok := m.(*ast.Ident)
+					if !ok || info.Uses[id] != pv || bad != "" {
+						return true
+					}
+					if be, ok := parents[id].(*ast.BinaryExpr); ok && (be.Op == token.EQL || be.Op == token.NEQ) {
+						return true // the test itself
+					}
+					excluded := false
+					for _, fc := range factsWithSwitch(parents, id) {
+						be, ok := fc.e.(*ast.BinaryExpr)
+						if !ok || identObj(info, be.X) != pv {
+							continue
+						}
+						if nid, ok := ast.Unparen(be.Y).(*ast.Ident); ok && nid.Name == "nil" {
+							if be.Op == token.EQL && fc.neg || be.Op == token.NEQ && !fc.neg {
+								excluded = true
+							}
+						}
+					}
+					if !excluded {
+						bad = p.Rel(id.Pos())
+					}
+					return true
+				})
+				r.Check(bad == "", fmt.Sprintf("nil %s handed to io.Encoder.%s", types.TypeString(pv.Type(), types.RelativeTo(pkg.Types)), fd.Name.Name), fd.Pos(), "used only where nil is excluded", fmt.Sprintf("%s uses its pointer parameter %s (at %s) on a path where it may be nil: a nil pointer of that type in a struct field reaches this writer as it is - it is written as the text of a nil value (`l<nil>;`, which no reader accepts) or dereferenced (Marshal panics)", fd.Name.Name, pv.Name(), bad))
+				// big.Float: the double tag only for finite values
+				if nt.Obj().Pkg().Path() == "math/big" && nt.Obj().Name() == "Float" {
+					n++
+					okInf := true
+					ast.Inspect(fd.Body, func(m ast.Node) bool {
+						c, ok := m.(*ast.CallExpr)
+						if !ok || !IsBuiltin(info, c, "append") {
+							return true
+						}
+						writesDouble := false
+						for _, a := range c.Args[1:] {
+							if o := identObj(info, a); o != nil && o.Name() == "TagDouble" {
+								writesDouble = true
+							}
+						}
+						if !writesDouble {
+							return true
+						}
+						excluded := false
+						for _, fc := range factsWithSwitch(parents, c) {
+							if ic, ok := fc.e.(*ast.CallExpr); ok && methodName(ic) == "IsInf" && fc.neg {
+								excluded = true
+							}
+						}
+						if !excluded {
+							okInf = false
+						}
+						return true
+					})
+					r.Check(okInf, "infinite big.Float in io.Encoder."+fd.Name.Name, fd.Pos(), "TagDouble only where IsInf() is excluded", fd.Name.Name+" writes the double tag for every big.Float: an infinite value is formatted as `d+Inf;` / `d-Inf;`, which is not an item of the grammar (the infinities are I+ and I-); an independent reader rejects the stream")
+				}
+			}
+		}
+	}
+	if n == 0 {
+		r.Undec("pointer-taking writers", 0, "none found")
+	}
+}
